@@ -1,6 +1,6 @@
 /-
   Props/C10.lean — C10 "swaps and permutations realise exactly the requested wire permutation".
-  Property theorems only; proofs are appeals to Proofs/Swap.lean.
+  Property theorems only; proofs are appeals to Proofs/Swap.lean and Proofs/PermList.lean.
 
   Observation used (Model/Wires.lean): `wirePerm d = some w` says that `d` consists of swaps of
   two atomic types only (`d.allSwaps`), every offset lying inside the diagram, and that the wire
@@ -12,12 +12,15 @@
   * `permutation_spec`             monoidal.py:516-548, the selection-sort loop invariant
                                    (`permLoop_spec` in Proofs/Swap.lean), for every length
   * `permutation_refuses`, `permutation_only_value_errors`
+  * `permutation_accepted_iff`     accepted ⇔ the list is a rearrangement of `range(len(dom))`
+                                   (both refusal tests in one condition; `List.Perm`)
+  * `permutation_refuses_duplicates`   a list with a repeated entry is refused on EVERY domain
   * `permute_spec`, `permute_refused_when_cod_differs`   monoidal.py:550-564
   The per-class factories (rigid, tensor, circuit, zx) pass `ar_factory`/`swap_factory` to this
   same code; the model has one box constructor `Box.swap`, so the theorems are about the shared
   algorithm and the classes are tied to it by the correspondence run (harness/props/c10.py).
 -/
-import Proofs.Swap
+import Proofs.PermList
 
 namespace DV.C10
 open DV
@@ -61,6 +64,24 @@ theorem permutation_spec (p : List Int) (dom : Ty) (hp : isPermList p = true)
 theorem permutation_refuses (p : List Int) (dom : Ty) :
     Diagram.permutation p dom = .error .value ↔ (isPermList p = false ∨ dom.length ≠ p.length) :=
   Diagram.permutation_refuses p dom
+
+/-- Acceptance, stated against the domain: `permutation(p, dom)` returns a diagram exactly when
+    `p` is a rearrangement of `[0, …, len(dom)-1]`.  This single condition contains both refusal
+    tests — `p` is a permutation of `range(len(p))` AND `len(dom) = len(p)`; comparing only the
+    SETS `set(p)` and `set(range(len(dom)))` is weaker (see the `coversRange` examples below). -/
+theorem permutation_accepted_iff (p : List Int) (dom : Ty) :
+    (∃ d, Diagram.permutation p dom = .ok d) ↔ (intRange dom.length).Perm p :=
+  Diagram.permutation_accepted_iff p dom
+
+/-- A list with a repeated entry is refused whatever domain comes with it — in particular a
+    domain exactly as long as the number of distinct entries. -/
+theorem permutation_refuses_duplicates (p : List Int) (dom : Ty) (hdup : ¬ p.Nodup) :
+    Diagram.permutation p dom = .error .value :=
+  (Diagram.permutation_refuses p dom).mpr
+    (Or.inl (by
+      cases h : isPermList p
+      · rfl
+      · exact absurd (isPermList_nodup h) hdup))
 
 /-- `permutation` never fails in any other way. -/
 theorem permutation_only_value_errors (p : List Int) (dom : Ty) :
@@ -111,6 +132,29 @@ example : isErr (Diagram.permutation [0, 0, 1] [x, y, z]) .value = true := by de
 example : isErr (Diagram.permutation [1, 0, 3] [x, y, z]) .value = true := by decide
 example : isErr (Diagram.permutation [1, 0] [x, y, z]) .value = true := by decide
 example : isErr (Diagram.permutation [-1, 0] [x, y]) .value = true := by decide
+/-- The one-test shortcut `set(p) == set(range(len(dom)))`: every entry lies in `range(n)` and
+    every element of `range(n)` occurs.  It is NOT the acceptance condition. -/
+private def coversRange (p : List Int) (n : Nat) : Bool :=
+  p.all (fun x => decide (0 ≤ x) && decide (x < (n : Int))) &&
+  (List.range n).all (fun k => p.contains (k : Int))
+
+-- duplicates together with a domain as long as the number of distinct entries: the shortcut
+-- would pass, both real tests fail, the request is refused (also through `permute`)
+example : coversRange [0, 1, 1] 2 = true ∧ isPermList [0, 1, 1] = false ∧
+    isErr (Diagram.permutation [0, 1, 1] [x, y]) .value = true := by decide
+example : coversRange [1, 0, 0] 2 = true ∧
+    isErr (Diagram.permutation [1, 0, 0] [x, y]) .value = true := by decide
+example : coversRange [0, 0] 1 = true ∧
+    isErr (Diagram.permutation [0, 0] [x]) .value = true := by decide
+example : isErr ((Diagram.id [x, y]).permute [0, 1, 1]) .value = true := by decide
+-- a genuine permutation on a domain that is too short / too long, and on the empty domain
+example : isErr (Diagram.permutation [1, 0, 2] [x, y]) .value = true := by decide
+example : isErr (Diagram.permutation [1, 0] []) .value = true := by decide
+example : isErr (Diagram.permutation [] [x]) .value = true := by decide
+-- out of range together with a wrong length
+example : isErr (Diagram.permutation [0, 1, 3] [x, y, z, u]) .value = true := by decide
+example : ¬ ([0, 1, 1] : List Int).Nodup := by decide
+example : (intRange 4).Perm [2, 0, 3, 1] := by decide
 example : okWith ((Diagram.id [x, y, z]).permute [1, 2, 0]) (fun d => d.cod == [z, x, y]) = true := by
   decide
 example : isErr ((Diagram.ofBox f).permute [1, 0]) .axiom = true := by decide
